@@ -40,3 +40,15 @@ package kubernetes
 //@     (let qp = MilliCPUToQuota(m) in QuotaToMilliCPU(qp.0, qp.1) == m)
 //@ lemma[C20] QuotaMonotone(q1 int64, q2 int64, p int64): 1 <= q1 && q1 <= q2 && q2 <= 25600000 && 1000 <= p && p <= 1000000 ==>
 //@     QuotaToMilliCPU(q1, p) <= QuotaToMilliCPU(q2, p)
+
+// ---- OOM score adjustment <-> memory request estimates ------------------------------------------------------
+// tableOK: what CalculateOomAdjToMemReqEstimates has to establish (checked for it by a bounded stand-in, see
+// /verif/DESIGN.md); OomAdjToMemReq is proved to hand out exactly the table's entries under it.
+
+//@ pure tableOK() bool = forall adj int64 :: 3 <= adj && adj <= 999 ==> adj in oomAdjToMemReqEstimates && MemReqToOomAdj(oomAdjToMemReqEstimates[adj]) == adj
+
+//@ func OomAdjToMemReq
+//@   requires memCapacity >= 1 << 20 && memCapacity <= 1 << 53 && tableOK()
+//@   ensures[C20] result != nil ==> 3 <= oomAdj && oomAdj <= 999 && MemReqToOomAdj(*result) == oomAdj
+//@   ensures[C20] 3 <= oomAdj && oomAdj <= 999 && memLimit == 0 ==> result != nil
+//@   ensures[C20] result != nil ==> *result == oomAdjToMemReqEstimates[oomAdj] && (memLimit == 0 || *result < memLimit)
